@@ -431,12 +431,19 @@ def _check(prop, tier, replay):
     seen_keys = set()
     # impl violations first: they carry a failing input
     failures.sort(key=lambda f: 0 if f[0] == 'impl-violates-property' else 1)
-    for n, (kind, c, impl, why, ans) in enumerate(failures[:200]):
+    processed = 0
+    for n, (kind, c, impl, why, ans) in enumerate(failures):
+        # every failure is looked at (a listed known finding that fails on thousands of cases must not crowd out a
+        # different violation further down the stream); only the first of each key is shrunk and reported, and at most
+        # 200 distinct ones are processed
         key0 = P.finding_key(c, impl, why) if kind == 'impl-violates-property' else 'disagree:' + hashlib.sha1(why.encode()).hexdigest()[:8]
         if kind == 'impl-violates-property' and key0 in seen_keys:
             continue
         if len(violations) >= 5 and key0 not in known:
             continue
+        if processed >= 200:
+            break
+        processed += 1
         c, impl, why = shrink(kind, c, impl, why)
         key = P.finding_key(c, impl, why) if kind == 'impl-violates-property' else 'disagreement'
         if kind == 'impl-violates-property':
